@@ -41,6 +41,8 @@ type View struct {
 
 	SetImage string
 	RevImage map[string]string // revision name -> template image, over revisions stored before or after
+	// RevTemplate: revision name -> the whole template it records (harness-side JSON decode)
+	RevTemplate map[string]*corev1.PodTemplateSpec
 
 	Selector labels.Selector
 	// Claimed: pods of the snapshot the controller may treat as the set's pods in this reconcile,
@@ -90,7 +92,7 @@ func NewView(rec *sim.Record) *View {
 	if set == nil {
 		return nil
 	}
-	v := &View{Rec: rec, Set: set, Name: set.Name, RevImage: map[string]string{}, Claimed: map[int]*corev1.Pod{},
+	v := &View{Rec: rec, Set: set, Name: set.Name, RevImage: map[string]string{}, RevTemplate: map[string]*corev1.PodTemplateSpec{}, Claimed: map[int]*corev1.Pod{},
 		Adoptable: map[string]*corev1.Pod{}, Releasable: map[string]*corev1.Pod{}, Foreign: map[string]*corev1.Pod{},
 		Odd: map[string]*corev1.Pod{}, ByName: map[string]*corev1.Pod{}}
 	if set.Spec.Replicas != nil {
@@ -123,6 +125,9 @@ func NewView(rec *sim.Record) *View {
 		for _, r := range l {
 			if r.Namespace == set.Namespace {
 				v.RevImage[r.Name] = revImage(r)
+				if t, err := revTemplate(r); err == nil {
+					v.RevTemplate[r.Name] = t
+				}
 			}
 		}
 	}
